@@ -309,5 +309,5 @@ func vhC17Histories(steps int, versions bool) {
 
 func vh_C17_histories3_Q() { vhC17Histories(3, false) }
 
-func vh_C17_versions3_Q() { vhC17Histories(3, true) }
+func vh_C17_versions3_Q()  { vhC17Histories(3, true) }
 func vh_C17_histories4_T() { vhC17Histories(4, false) }
